@@ -50,14 +50,14 @@ def verify(src, mid, tests):
     try:
         os.makedirs(os.path.join(wt, "_seeded", "x"), exist_ok=True)
         shutil.copy(os.path.join(dst, "demo.py"), os.path.join(wt, "_seeded", "x", "demo.py"))
-        rc, out = sh(f"PYTHONPATH={wt} {PY} _seeded/x/demo.py", cwd=wt, timeout=3600)
+        rc, out = sh(f"OMP_NUM_THREADS=4 PYTHONPATH={wt} {PY} _seeded/x/demo.py", cwd=wt, timeout=3600)
         res["demo_without_patch_rc"] = rc
         rc, out = sh(f"git apply {_patch(dst)}", cwd=wt)
         res["patch_applies"] = rc == 0
-        rc, out = sh(f"PYTHONPATH={wt} {PY} _seeded/x/demo.py", cwd=wt, timeout=3600)
+        rc, out = sh(f"OMP_NUM_THREADS=4 PYTHONPATH={wt} {PY} _seeded/x/demo.py", cwd=wt, timeout=3600)
         res["demo_with_patch_rc"] = rc
         res["demo_with_patch_tail"] = out.strip().splitlines()[-3:]
-        rc, out = sh(f"{PY} -m pytest -q -p no:cacheprovider --timeout=3000 {tests} 2>&1 | tail -15", cwd=wt,
+        rc, out = sh(f"OMP_NUM_THREADS=2 {PY} -m pytest -q -p no:cacheprovider --timeout=3000 {tests} 2>&1 | tail -15", cwd=wt,
                      timeout=14400)
         failed = [ln for ln in out.splitlines() if ln.startswith("FAILED")]
         unexpected = [ln for ln in failed if not any(k in ln for k in KNOWN_FAIL)]
